@@ -415,7 +415,7 @@ def main():
     for pf in spec['props_files']:
         ns, names = theorems_in(pf)
         mods = [pf[:-5].replace('/', '.')]
-        aud, araw = axiom_audit(pid + '_' + os.path.basename(pf)[:-5], mods, ns, names) if ok else ({n: None for n in names}, '')
+        aud, araw = axiom_audit(pid + '_' + os.path.basename(pf)[:-5], mods, ns, names)   # per file: a module that failed to build yields 'not checked'
         for n in names:
             ax = aud.get(n)
             good = ax is not None and set(ax) <= ALLOWED_AXIOMS
@@ -496,7 +496,7 @@ def main():
 
     # ---- 7. evidence
     n_obl = len(obligations) + gen_obl
-    n_dis = sum(1 for o in obligations if o['ok']) + (gen_obl if ok else 0)
+    n_dis = sum(1 for o in obligations if o['ok']) + (gen_obl if ok else 0)   # generated obligations live in the modules built above
     cov = {
         'obligations': n_obl, 'discharged': n_dis,
         'checker_cmd': 'cd lean && lake build %s && lake env lean <#print axioms for each theorem>%s' % (
